@@ -70,7 +70,7 @@ def gen_values(r, size, style, dims=None):
 
 def gen_table(tier, seed):
     r = rng(seed, "table")
-    ncases = 90 if tier == "quick" else 1500
+    ncases = 240 if tier == "quick" else 2500
     specs = []
     stats = {"cases": 0, "ndims": {}, "todf": 0, "imports": 0, "wide": 0, "csv": 0, "faulty": 0, "fault_kinds": {},
              "headers": {}, "index": {}, "flags": {}, "existing_target": 0}
@@ -150,6 +150,12 @@ def gen_table(tier, seed):
                     lay["wide"] = r.choice(dims)[1]
                 stats["reader_blank"] = stats.get("reader_blank", 0) + 1
             target = "existing" if r.random() < 0.35 else "new"
+            if any(f["kind"] in ("dup_row", "dup_and_drop") and not f["change_value"] for f in faults) and r.random() < 0.6:
+                # a line repeated verbatim in a file read by the CSV / Excel parameter reader: refused like any duplicate
+                lay["via"] = r.choice(["csvreader", "xlsxreader"])
+                lay["index"] = "none"; lay["csv"] = False
+                target = "new"
+                stats["reader_repeated_line"] = stats.get("reader_repeated_line", 0) + 1
             stats["existing_target"] += int(target == "existing")
             ops.append({"op": "fromdf", "layout": lay, "faults": faults, "miss": miss, "extra": extra, "target": target})
             stats["imports"] += 1
